@@ -2,7 +2,7 @@
    extraction and for vm_compute cross-checks. *)
 From Coq Require Import ZArith List Bool Arith Lia.
 From Coq Require Import QArith.
-From RV Require Import Val Syntax Rho Offline Online Sat IA Pastify Jitter Units Support Lexer Parser Elab Dense DenseSem DenseMerge DenseEval DenseSat Explain ExtZ.
+From RV Require Import Val Syntax Rho Offline Online Sat IA Pastify Jitter Units Support Lexer Parser Elab Dense DenseSem DenseMerge DenseEval DenseWin DenseVisitor DenseSat Explain ExtZ.
 Import ListNotations.
 
 Definition zformula := @formula ExtZVal.
